@@ -174,7 +174,7 @@ func c14Case(g *hx.Gen, p c14Par, self, comp bool, t, q []byte) {
 }
 
 func c14Gen(g *hx.Gen) {
-	total := g.Scale(1500, 20000)
+	total := g.Scale(1500, 15000)
 	for i := 0; i < total && !g.Done(); i++ {
 		p := c14Params(g)
 		if g.Chance(0.03) { // parameters outside the property: non-positive threshold, offset < e, offset 0
